@@ -35,7 +35,7 @@ type RunnerCase struct {
 	OffsetUs  int    `json:"offset_us"`       // completion instant of the action relative to the deadline
 	Outcome   string `json:"action_outcome"`  // nil | error
 	Observes  bool   `json:"observes_signal"` // the action returns as soon as it sees its stop signal
-	Parent    string `json:"parent_context"`  // live | cancelled-before | cancelled-during
+	Parent    string `json:"parent_context"`  // live | cancelled-before | cancelled-during | deadline-later (the parent has a deadline of its own, 3.2 s after the runner's)
 	ParentUs  int    `json:"parent_cancel_offset_us,omitempty"`
 	Busy      int    `json:"busy_goroutines"`
 }
@@ -109,6 +109,12 @@ func checkRunner(t ev.T, test string, c RunnerCase) {
 	defer parentCancel()
 	if c.Parent == "cancelled-before" {
 		parentCancel()
+	}
+	if c.Parent == "deadline-later" {
+		// a parent with a (much later) deadline of its own changes nothing: the runner's timeout still applies
+		var dc context.CancelFunc
+		parent, dc = context.WithDeadline(parent, time.Now().Add(timeout+3200*time.Millisecond))
+		defer dc()
 	}
 	// measured scheduling latency of this very run: a reference timer set to the same timeout
 	var refLate atomic.Int64
@@ -312,7 +318,7 @@ func genRunner(t *rapid.T) RunnerCase {
 		// an action that keeps working (and polling its stop signal) for three seconds past the deadline unless it is told to stop
 		c.OffsetUs = 3000000
 	}
-	c.Parent = rapid.SampledFrom([]string{"live", "live", "live", "cancelled-before", "cancelled-during"}).Draw(t, "parent")
+	c.Parent = rapid.SampledFrom([]string{"live", "live", "live", "cancelled-before", "cancelled-during", "deadline-later"}).Draw(t, "parent")
 	if c.Parent == "cancelled-during" {
 		c.ParentUs = rapid.IntRange(-c.TimeoutUs, 1000).Draw(t, "parent_us")
 	}
@@ -479,7 +485,7 @@ func TestParallelise(t *testing.T) {
 
 type StoreCase struct {
 	Workers int     `json:"goroutines"`
-	Scripts [][]int `json:"scripts"` // per goroutine: 0 Register, 1 Cancel, 2 Len, 3 yield
+	Scripts [][]int `json:"scripts"` // per goroutine: 0 Register, 1 Cancel, 2 Len, 3 yield, 4 Register two functions through a buffer that the goroutine re-uses
 }
 
 func checkStore(t ev.T, test string, c StoreCase) {
@@ -499,8 +505,20 @@ func checkStore(t ev.T, test string, c StoreCase) {
 		go func(script []int) {
 			defer wg.Done()
 			<-start
+			buf := make([]context.CancelFunc, 0, 8) // the caller's own slice: what it does with it later is its business
 			for _, op := range script {
 				switch op {
+				case 4:
+					c1, c2 := &atomic.Int64{}, &atomic.Int64{}
+					buf = append(buf[:0], func() { c1.Add(1) }, func() { c2.Add(1) })
+					store.RegisterCancelFunction(buf...)
+					at := clock.Add(1)
+					mu.Lock()
+					regs = append(regs, reg{at, c1}, reg{at, c2})
+					mu.Unlock()
+					for i := range buf {
+						buf[i] = func() {} // the buffer is re-used
+					}
 				case 0:
 					calls := &atomic.Int64{}
 					store.RegisterCancelFunction(func() { calls.Add(1) })
@@ -557,7 +575,7 @@ func TestCancelStore(t *testing.T) {
 		c := StoreCase{Workers: rapid.IntRange(1, 8).Draw(rt, "workers")}
 		ns := rapid.IntRange(1, c.Workers).Draw(rt, "scripts")
 		for i := 0; i < ns; i++ {
-			c.Scripts = append(c.Scripts, rapid.SliceOfN(rapid.IntRange(0, 3), 1, 40).Draw(rt, fmt.Sprintf("script%d", i)))
+			c.Scripts = append(c.Scripts, rapid.SliceOfN(rapid.IntRange(0, 4), 1, 40).Draw(rt, fmt.Sprintf("script%d", i)))
 		}
 		key, _ := json.Marshal(c)
 		ev.Case(string(key), c.Workers > 1, "cancel-store", c)
